@@ -46,6 +46,8 @@ structure T (α : Type) where
   hi : Nat
 
 namespace T
+/-- the payload of a success -/
+def val? {α} (x : T α) : Option α := match x.res with | .ok a => some a | .fail _ _ => none
 def ok {α} (a : α) (hi : Nat) : T α := ⟨.ok a, hi⟩
 def fail {α} (err : Int) (hi : Nat) : T α := ⟨.fail err 0, hi⟩
 
